@@ -77,7 +77,7 @@ def build_cases(tier, seed):
     _CASES = cs
     meta = {
         "family": "generators: name_/short_name_PlackettLuce, name_BradleyTerry (exact, MCMC), name_Cumulative, slate_PlackettLuce, slate_BradleyTerry "
-                  "(exact, MCMC), AlternatingCrossover, CambridgeSampler (custom 6-type historical table) on two blocs with slate sizes "
+                  "(exact, MCMC), AlternatingCrossover, CambridgeSampler (custom 4-type historical table) on two blocs with slate sizes "
                   "(1,1),(2,1),(2,2)" + ("" if tier == "quick" else ",(1,2)") + ", supports {(.2,.8),(1,0),(.5,.5)}, cohesion {1,.7,.5,.3" + (",0" if tier != "quick" else "") + "}, proportions "
                   "{(.5,.5),(.7,.3),(1,0)} and on one bloc of 2..3 candidates; ImpartialCulture, ImpartialAnonymousCulture, BallotSimplex.from_point on "
                   f"2..3 candidates; OneDimSpatial / Spatial / ClusteredSpatial on finite position grids; N in {Ns}; all RNG paths, by_bloc=True",
@@ -381,26 +381,29 @@ def make_case(i, model, ref, N, ex, p):
 
         return fn, judge1, None
     if model in ("Spatial", "ClusteredSpatial"):
+        # the constructors probe their distributions; that happens outside the explored run (real RNG)
+        if model == "Spatial":
+            g = bg.Spatial(candidates=cands, voter_dist=np.random.uniform, voter_dist_kwargs={"low": 0.0, "high": 1.0, "size": 2},
+                           candidate_dist=np.random.uniform, candidate_dist_kwargs={"low": 0.0, "high": 1.0, "size": 2})
+        else:
+            g = bg.ClusteredSpatial(candidates=cands, voter_dist=np.random.normal, voter_dist_kwargs={"scale": 1.0, "size": 2},
+                                    candidate_dist=np.random.uniform, candidate_dist_kwargs={"low": 0.0, "high": 1.0, "size": 2})
+
         def fn():
             CH.grid = (0.0, 1.0)
             if model == "Spatial":
-                g = bg.Spatial(candidates=cands, voter_dist=np.random.uniform, voter_dist_kwargs={"low": 0.0, "high": 1.0, "size": 2},
-                               candidate_dist=np.random.uniform, candidate_dist_kwargs={"low": 0.0, "high": 1.0, "size": 2})
-                # the constructor probes the distributions: forget those draws, only the generation is explored
                 return g.generate_profile(N)
-            g = bg.ClusteredSpatial(candidates=cands, voter_dist=np.random.normal, voter_dist_kwargs={"scale": 1.0, "size": 2},
-                                    candidate_dist=np.random.uniform, candidate_dist_kwargs={"low": 0.0, "high": 1.0, "size": 2})
-            return g.generate_profile_with_dict({c: (N if k == 0 else 0) for k, c in enumerate(cands)} if N == 1
-                                                else {c: 1 for c in cands[:N]} | {c: 0 for c in cands[N:]})
+            return g.generate_profile_with_dict({c: (1 if k < N else 0) for k, c in enumerate(cands)})
 
         return fn, judge_spatial, None
     if model in ("Spatial_default", "ClusteredSpatial_default"):
         def fn():
+            CH.active = False  # default construction probes the real distributions
+            g = bg.Spatial(candidates=cands) if model == "Spatial_default" else bg.ClusteredSpatial(candidates=cands)
+            CH.active = True
             CH.grid = (0.0, 1.0)
             if model == "Spatial_default":
-                g = bg.Spatial(candidates=cands)
                 return g.generate_profile(N)
-            g = bg.ClusteredSpatial(candidates=cands)
             return g.generate_profile_with_dict({cands[0]: 1, cands[1]: 0})
 
         return fn, judge_spatial, "default_kwargs"
